@@ -395,6 +395,9 @@ pub struct MonitorSet {
     pub window: Option<Window>,
     pub inject_ctr: u64,
     pub panics_seen: u64,
+    /// length of the simulator trace when the run was halted, and the cluster state then
+    pub halt_at: usize,
+    pub fail_state: Vec<String>,
 }
 
 impl MonitorSet {
@@ -405,7 +408,7 @@ impl MonitorSet {
             cl: BTreeMap::new(), own: vec![], max_commit_ever: 0, leader_of: BTreeMap::new(), max_leader_commit: 0,
             promised_term: vec![], granted: BTreeMap::new(), next_apply: vec![], handed: vec![], last_has_ready: vec![],
             reads: BTreeMap::new(), lead_start: vec![], cur_apply: vec![], conf_after: BTreeMap::new(),
-            transfer_ticks: vec![], window: None, inject_ctr: 0, panics_seen: 0,
+            transfer_ticks: vec![], window: None, inject_ctr: 0, panics_seen: 0, halt_at: 0, fail_state: vec![],
         }
     }
 
@@ -582,6 +585,30 @@ impl MonitorSet {
     }
 }
 
+/// One line per node: the cluster state when a run is halted.
+pub fn describe(sim: &Sim) -> Vec<String> {
+    let mut out = vec![];
+    for n in &sim.nodes {
+        let hs = n.store.initial_state().map(|s| s.hard_state).unwrap_or_default();
+        let st = format!("store(term {} vote {} commit {} first {} last {}) app_applied {}", hs.term, hs.vote, hs.commit, n.store.first_index().unwrap_or(0), n.store.last_index().unwrap_or(0), n.applied);
+        match n.driver.as_ref() {
+            None => out.push(format!("node {} DOWN {}", n.id, st)),
+            Some(d) => {
+                let r = &d.node.raft;
+                let l = &r.raft_log;
+                let c = conf_key(&r.prs().conf().to_conf_state());
+                out.push(format!(
+                    "node {} {:?} term {} vote {} lead {} commit {} applied {} persisted {} last {} unstable@{}+{} transferee {:?} conf v{:?} o{:?} l{:?} ln{:?} {}",
+                    n.id, r.state, r.term, r.vote, r.leader_id, l.committed, l.applied, l.persisted, l.last_index(), l.unstable.offset,
+                    l.unstable.entries.len(), r.lead_transferee, c.voters, c.outgoing, c.learners, c.learners_next, st
+                ));
+            }
+        }
+    }
+    out.push(format!("network: {} messages in flight", sim.net.len()));
+    out
+}
+
 pub fn call_brief(c: &Call) -> String {
     match c {
         Call::Step(m) => format!("Step({:?} from {} term {})", m.get_msg_type(), m.from, m.term),
@@ -656,10 +683,14 @@ pub fn main(args: &[String]) {
             }
             println!("{}", line);
             println!("REASON {}", v);
-            let n = sim.trace.len();
-            for l in &sim.trace[n.saturating_sub(80)..] {
+            let n = m.halt_at.min(sim.trace.len());
+            let keep = 78usize.saturating_sub(m.fail_state.len());
+            for l in &sim.trace[n.saturating_sub(keep)..n] {
                 let l: String = if verbose { l.clone() } else { l.chars().take(400).collect() };
                 println!("  {}", l);
+            }
+            for l in &m.fail_state {
+                println!("  # {}", l);
             }
             return;
         }
